@@ -66,7 +66,7 @@ def gen_cases(ctx):
             cases += tg.exhaustive_cases("sha", keys4, 2)
         keys2 = sorted({base, tg.flip(base, [252])})
         cases += tg.exhaustive_cases("toy", keys2, 4)
-    n_toy, n_sha = (160, 80) if quick else (10000, 20000)
+    n_toy, n_sha = (240, 120) if quick else (10000, 20000)
     for _ in range(n_toy):
         cases.append(tg.rand_case(rng, "toy"))
     for _ in range(n_sha):
